@@ -108,8 +108,11 @@ from ..gen.c05_hist import PARTIAL_MODES      # noqa: E402  ({"P": implicit mode
 def _vcase(case, v, strategy):
     for k, cfg in PARTIAL_MODES.items():
         K.MODES.setdefault(k, cfg)
-    return dict(tpl=dict(rsmi=v["rsmi"], core=bool(case["tpl"].get("core", True))), sub=v["sub"], invert=bool(case.get("invert", False)),
-                strategy=strategy, mode=case.get("mode", "E"))
+    d = dict(tpl=dict(rsmi=v["rsmi"], core=bool(case["tpl"].get("core", True))), sub=v["sub"], invert=bool(case.get("invert", False)),
+             strategy=strategy, mode=case.get("mode", "E"))
+    if case.get("opts"):
+        d["opts"] = dict(case["opts"])        # constructor options of the reactor (embed_threshold)
+    return d
 
 
 # The adapter and the oracle of ONE case are called one after the other in the same worker process; the reactor runs of the
@@ -119,7 +122,8 @@ _MEMO = {"case": None, "recs": {}}
 
 
 def _memo_key(case):
-    return (case.get("name"), tuple((v["sub"], v["rsmi"]) for v in case["variants"]), case.get("mode"), bool(case.get("invert")))
+    return (case.get("name"), tuple((v["sub"], v["rsmi"]) for v in case["variants"]), case.get("mode"), bool(case.get("invert")),
+            repr(sorted((case.get("opts") or {}).items())))
 
 
 def _run_memo(case, v, strategy):
@@ -215,7 +219,7 @@ def impl(case):
     pre = case.get("pre")
     if pre is not None and ("error" in pre or "outside" in pre):
         return ["SKIP"]
-    if case.get("mode") in PARTIAL_MODES:
+    if case.get("mode") in PARTIAL_MODES or case.get("opts"):
         return ["SKIP"]
     mode = case.get("mode", "E")
     out = []
@@ -367,7 +371,7 @@ def coq_case(case):
     pre = case.get("pre")
     if pre is None:
         pre = prepare(case)["pre"]
-    if "error" in pre or "outside" in pre or pre.get("big") or case.get("mode") in PARTIAL_MODES:
+    if "error" in pre or "outside" in pre or pre.get("big") or case.get("mode") in PARTIAL_MODES or case.get("opts"):
         return None
     mode = case.get("mode", "E")
     maps = pre.get("maps") or [None] * len(_model_variants(case))
@@ -503,6 +507,8 @@ def _fresh_sequence(case, apps, strategies):
 def _seq_sampled(case):
     """which cases get the fresh-interpreter sequences (two helper processes each, ~1 s of start-up each)"""
     import hashlib
+    if case.get("opts"):
+        return False          # the history steps carry their own (result-neutral) options
     if case.get("seq"):
         return True
     return int(hashlib.md5(case.get("name", "").encode()).hexdigest(), 16) % 16 == 0
@@ -631,7 +637,15 @@ def _oracle(case):
         A, C, B = obs[(i, "all")], obs[(i, "comp")], obs[(i, "bt")]
         if A["err"] or C["err"] or B["err"]:
             continue
-        if not C["std"] <= A["std"]:
+        thr = (case.get("opts") or {}).get("embed_threshold")
+        if thr is not None and thr < case.get("n_all", 0) and not A["std"] and C["std"]:
+            # known finding: the documented guard empties the exhaustive search (more embeddings than the cap) while the
+            # component-aware search stays below the cap
+            fails.append(dict(clause="comp-subset", key="capped:comp-subset",
+                              detail="writing %s (%s ; %s): embed_threshold=%d is below the %d embeddings of the exhaustive search, which "
+                                     "therefore returns nothing; the component-aware search (below the cap) returns %d reactions"
+                                     % (v["v"], v["sub"], v["rsmi"], thr, case.get("n_all", 0), len(C["std"]))))
+        elif not C["std"] <= A["std"]:
             fail("comp-subset", "writing %s (%s ; %s): component-aware results not among the exhaustive ones: %r" % (v["v"], v["sub"], v["rsmi"], sorted(C["std"] - A["std"])[:2]))
         elif C["iso"] is not None and A["iso"] is not None and not _sub_iso_sets(C["iso"], A["iso"]):
             fail("comp-subset-its", "writing %s (%s ; %s): a glued ITS graph of the component-aware strategy is not isomorphic to any of the exhaustive strategy" % (v["v"], v["sub"], v["rsmi"]))
@@ -665,6 +679,7 @@ def _oracle(case):
 def _repeat_same_template(case, v, st, want, base_key):
     import synkit.Synthesis.Reactor.syn_reactor as SR
     cfg = dict(K.MODES[case.get("mode", "E")])
+    cfg.update(case.get("opts") or {})
     tpl = K.tpl_graph(dict(rsmi=v["rsmi"], core=bool(case["tpl"].get("core", True))))
     out = []
     sets = []
@@ -806,4 +821,36 @@ def gen_cases(tier, rng):
             q["name"] = p["name"] + ":partial"
             pairs.append(q)
     cases = [_mk_case(p, rng, k_sub, k_tpl, cap) for p in pairs]
-    return prepare_all(cases)
+    cases = prepare_all(cases)
+    return cases + threshold_cases(cases, rng, 3 if tier == "quick" else 5)
+
+
+# the embedding cap (SynReactor(embed_threshold=k) -> find_subgraph_mappings(threshold=k)): a documented guard that EMPTIES a search
+# with more than k embeddings.  Swept around the number n of embeddings of the exhaustive search on designated rules (first
+# substrate, centre template): k = n - 1 (just over the cap), n (exactly at the cap), n // 2, 1, 0 (falsy).  Whatever k is, the
+# answer must not depend on how the inputs are written.
+THR_RULES = ("bromination-bare", "suzuki-bare", "metathesis-bare", "halogen-exchange-bare", "dimerisation-bare", "aldol-bare",
+             "tishchenko-implicit", "diels-alder:", "halohydrin-closure", "hydrolysis-explicit", "sn2-explicit", "amine-double-abstraction",
+             "three-component", "single-symmetric", "ester-exchange")
+
+
+def threshold_cases(cases, rng, per_rule):
+    out = []
+    for c in cases:
+        pre = c.get("pre") or {}
+        if c.get("kind") != "hand" or not c["tpl"].get("core") or c["sub"] != c.get("first_sub") or c.get("mode") in PARTIAL_MODES:
+            continue
+        if not any(("hand:" + k) in c["name"] + ":" for k in THR_RULES) or "cost" not in pre or pre.get("big"):
+            continue
+        n = int(pre["cost"]["raw"])
+        if n < 2:
+            continue
+        rest = sorted({n, 1, 0} - {n - 1, n // 2})
+        ks = [n - 1] + ([n // 2] if n // 2 not in (n - 1,) else []) + rng.sample(rest, max(0, min(per_rule - 2, len(rest))))
+        for k in ks:
+            q = {a: b for a, b in c.items() if a != "seq"}
+            q["opts"] = dict(embed_threshold=k)
+            q["n_all"] = n
+            q["name"] = "%s:thr=%d/%d" % (c["name"], k, n)
+            out.append(q)
+    return out
